@@ -285,7 +285,7 @@ def random_history(rng, src, length, kinds):
 
         def supports(n):
             e = n.expr
-            return isinstance(e, TexEnv) or (isinstance(e, TexCmd) and e.name == 'item')
+            return isinstance(e, TexEnv) or (isinstance(e, TexCmd) and (e.name == 'item' or bool(e._contents)))
         if k in ('delete', 'replace_with', 'rename', 'set_string') or k.startswith('args_'):
             if not nodes:
                 continue
@@ -295,7 +295,7 @@ def random_history(rng, src, length, kinds):
             if k == 'replace_with':
                 op['ms'] = rng.choice(mats)
             elif k == 'rename':
-                if not isinstance(e, (TexCmd, TexNamedEnv)) or e.name == 'item':
+                if not isinstance(e, (TexCmd, TexNamedEnv)):
                     continue
                 op['nm'] = to_atoms(rng.choice(['zz', 'kk*']))
             elif k == 'set_string':
@@ -348,7 +348,7 @@ def random_history(rng, src, length, kinds):
             if k in ('insert', 'append'):
                 op['ms'] = rng.choice(mats)
                 if k == 'insert':
-                    op['i'] = rng.randint(0, len(pw.expr._contents) + 1)
+                    op['i'] = rng.randint(-3, len(pw.expr._contents) + 1)
             else:
                 if k == 'remove':
                     kids = [c for c in pw.expr._contents if not isinstance(c, (TexText, str))]
